@@ -287,7 +287,7 @@ class OPVLatent(Harness):
 
     def inputs(self, mk):
         n, h, t = self.params["n"], self.params["h"], self.params["t"]
-        return dict(H=mk.real("h", (2, n, h, t), lo=-6, hi=6))
+        return dict(H=mk.real("h", (2, n, h, t), lo=-6, hi=6), H2=mk.real("g", (2, n, h, t), lo=-6, hi=6))
 
     def call(self, inp, mk):
         from pybrops.breed.prot.sel.prob.OptimalPopulationValueSelectionProblem import OptimalPopulationValueSubsetSelectionProblem as C
@@ -300,23 +300,37 @@ class OPVLatent(Harness):
         try:
             lat = prob.latentfn(numpy.array(self.params["sel"]))
             ohv = O._calc_ohvmat(2, inp["H"].copy(), numpy.array([self.params["sel"]]), mem=None) if k == 2 else None
+            H_after = prob.haplomat
+            # second use of the same problem object: the haplotype values are reassigned, the next evaluation must see the new ones
+            prob.haplomat = inp["H2"].copy()
+            lat2 = prob.latentfn(numpy.array(self.params["sel"]))
         finally:
             sym.FORK_MINMAX[0] = saved
-        return dict(lat=lat, ohv=ohv, H_after=prob.haplomat)
+        return dict(lat=lat, ohv=ohv, H_after=H_after, lat2=lat2)
 
     def check(self, P, inp, out):
         n, h, t = self.params["n"], self.params["h"], self.params["t"]
         sel = self.params["sel"]
         Hm = inp["H"]
-        for tr in range(t):
+        def total(M, tr):
             tot = 0.0
             for b in range(h):
-                cands = [cell(Hm, ph, i, b, tr) for ph in range(2) for i in sel]
+                cands = [cell(M, ph, i, b, tr) for ph in range(2) for i in sel]
                 best = cands[0]
                 for c in cands[1:]:
                     best = sym.sv_max(best, c) if isinstance(best, SV) or isinstance(c, SV) else max(best, c)
                 tot = tot + best
+            return tot
+        for tr in range(t):
+            tot = total(Hm, tr)
             P.prove(P.eq(cell(out["lat"], tr), -2 * tot), "opv=-ploidy*sum-over-blocks-of-the-best-selected-block-value")
+            saved = sym.FORK_MINMAX[0]
+            sym.FORK_MINMAX[0] = False       # (the reference of the second evaluation as nested if-then-else terms: forking on both references squares the path count)
+            try:
+                tot2 = total(inp["H2"], tr)
+            finally:
+                sym.FORK_MINMAX[0] = saved
+            P.prove(P.eq(cell(out["lat2"], tr), -2 * tot2), "opv-after-reassigning-the-haplotype-values-uses-the-new-values")
             if out["ohv"] is not None:
                 P.prove(P.eq(cell(out["ohv"], 0, tr), 2 * tot), "opv-of-two-parents=ohv-of-their-cross")
         for a, b in zip(cells(out["H_after"]), cells(Hm)):
